@@ -8,6 +8,11 @@ HOOK_COMMITS = subprocess.run(
 
 CHECKS = {
     # id: (engine, category, technique, text, note, design_ref)
+    "C01": ("S", "model_checking",
+            "stateless schedule exploration (token-passing scheduler over OS threads, DFS with preemption bounding) of pairs/triples of real writer operations on a shared store",
+            "Every unordered pair of 13 real writer/reader operations (message, run spawned/ended, side effects, cursor set/rotate, selection decided, manual/auto/scheduled compaction, branch, handoff, reader replay) on one shared thread, from a warm, a restarted and a restarted-cache-less store, plus sessions and linked runs sharing the log writer, is explored over all interleavings at lock / publish / cache / log-effect hooks with <=1 (quick) / <=2-3 (thorough, plus triples) preemptions; at quiescence a fresh EventLog must pass validated replay, every stream must read 0..n-1 in file order, every acknowledged id must appear once, and the same after a restart plus one more append per thread.",
+            "2-3 actors, one op each; scheduling granularity = hook points (critical sections are the real ones: predicates read the real locks); preemption bound; histories crossing several restarts are covered by C05/C04.",
+            "DESIGN.md §3 C01"),
     "C06": ("S", "model_checking",
             "stateless schedule exploration (CHESS-style token-passing scheduler over OS threads, DFS over choice sequences) of the real emitters racing the real SSE handlers through the production router",
             "For the session, task and thread streams (thread with the sidecar present and deleted) every interleaving of the producer's lock/publish/record steps with one subscriber's subscribe / snapshot steps is executed with no preemption bound (two subscribers: preemption bound 2 in quick for sessions, all kinds in thorough); each execution runs the real run_session / TaskEmitter::emit / append_message against the real GET .../events handler, and the frames the subscriber's body yields must be exactly the stream's frames in the log, once, in order.",
